@@ -141,6 +141,48 @@ SimDateTime.max = REAL.max
 SimDateTime.resolution = REAL.resolution
 
 _patched_count = -1
+_dt_proxy = None
+_time_proxy = None
+
+
+def _proxies():
+    """Stand-ins for the `datetime` and `time` *modules*, for code that does
+    `import datetime` / `import time` and calls datetime.datetime.now() / time.time()."""
+    global _dt_proxy, _time_proxy
+    if _dt_proxy is None:
+        import types
+
+        m = types.ModuleType("datetime")
+        m.__dict__.update({k: v for k, v in _dt.__dict__.items() if not k.startswith("__")})
+        m.datetime = SimDateTime
+        _dt_proxy = m
+        t = types.ModuleType("time")
+        t.__dict__.update({k: v for k, v in _time.__dict__.items() if not k.startswith("__")})
+
+        def sim_time():
+            return _clock.read(_site_here()) / 1e6
+
+        def sim_time_ns():
+            return _clock.read(_site_here()) * 1000
+
+        def sim_localtime(secs=None):
+            if secs is None:
+                secs = _clock.read(_site_here()) // 1000000
+            return _time.localtime(secs)
+
+        def sim_gmtime(secs=None):
+            if secs is None:
+                secs = _clock.read(_site_here()) // 1000000
+            return _time.gmtime(secs)
+
+        t.time, t.time_ns, t.localtime, t.gmtime = sim_time, sim_time_ns, sim_localtime, sim_gmtime
+        _time_proxy = t
+    return _dt_proxy, _time_proxy
+
+
+def _site_here():
+    f = sys._getframe(2)
+    return "%s:%d" % (os.path.basename(f.f_code.co_filename), f.f_lineno)
 
 
 def install(us=0, policy=("frozen",)):
@@ -166,9 +208,16 @@ def refresh(force=False):
         d = getattr(mod, "__dict__", None)
         if not d:
             continue
+        dtp, tp = _proxies()
         for k, v in list(d.items()):
             if v is REAL:
                 d[k] = SimDateTime
+                hits += 1
+            elif v is _dt:
+                d[k] = dtp
+                hits += 1
+            elif v is _time:
+                d[k] = tp
                 hits += 1
     _patched_count = len(sys.modules)
     return hits
